@@ -9,7 +9,7 @@ for l in open('/verif/properties.jsonl'):
     if d['id'] == pid:
         prop = d
 print(f"""You are helping to evaluate a verification effort for the Python finite element library EasyFEA (matnoel/EasyFEA).
-A scratch git worktree of the repository is at {wt} (a checkout of the pinned commit). Work ONLY inside {wt}; never touch /repo or /verif, and do not read anything under /verif.
+A scratch git worktree of the repository is at {wt} (a checkout of the current tree). Work ONLY inside {wt}; never touch /repo or /verif, and do not read anything under /verif.
 Python: use /venv/bin/python, always with cwd={wt} so that `import EasyFEA` picks up the worktree's sources (check with `python -c "import EasyFEA; print(EasyFEA.__file__)"`). No network is available.
 
 Here is a semantic property that the library should satisfy:
@@ -18,13 +18,15 @@ TITLE: {prop['title']}
 STATEMENT: {prop['statement']}
 QUANTIFIED OVER: {prop['quantifier']['text']}
 RELEVANT CODE: {json.dumps(prop['anchors'].get('mechanism', []))}
+STATE: {json.dumps(prop['anchors'].get('state', []))}
+OBSERVATION POINTS: {json.dumps(prop['anchors'].get('observe_at', []))}
 
-Your task: produce TWO different, independent, realistic changes (bugs) to the library source, each of which BREAKS this property while the library still imports and the existing test suite still passes. Prefer changes that need something specific to manifest (an unusual input, a particular element type or parameter value, a multi-step sequence of operations, a degenerate case, or two cooperating sites that each look fine alone) rather than ones that ordinary use would expose at once. Subtle, plausible regressions (a wrong coefficient in a rarely used table entry, an off-by-one in a case table, a stale cache not cleared on one path, a sign or transpose that only matters for non-axis-aligned input, ...) are ideal. Do not change tests. Do not make changes that merely crash on import.
+Your task: produce TWO different, independent, realistic changes (bugs) to the library source, each of which BREAKS this property while the library still imports and the existing test suite still passes. Prefer changes that need something specific to manifest (an unusual input, a particular element type or parameter value, a multi-step sequence of operations, a degenerate case, or two cooperating sites that each look fine alone) rather than ones that ordinary use would expose at once. Subtle, plausible regressions (a wrong coefficient in a rarely used table entry, an off-by-one in a case table, a stale cache not cleared on one path, a sign or transpose that only matters for non-axis-aligned input, ...) are ideal. Make the two changes of different kinds and in different places. Do not change tests. Do not make changes that merely crash on import.
 
 For each change i in (A, B):
  1. Make the edit in the worktree, save it with `git -C {wt} diff > {wt}/seed_{pid}_i.diff` (i = A or B), then `git -C {wt} checkout -- .` before starting the next one so the two patches are independent (each applies to the pristine tree).
  2. Write a small demonstration script {wt}/demo_{pid}_i.py that exits 0 on the pristine tree and exits non-zero (with a clear message showing the property being violated on the real library API) when the patch is applied. The demo must use the public API / the observation points named above.
- 3. Check that the relevant existing tests still pass with the patch applied: run `cd {wt} && /venv/bin/python -m pytest -q -p no:cacheprovider -x --timeout=900 tests/<relevant subfolders>` (the full suite takes ~10 minutes; run at least the test files that touch the code you changed, and the full suite once if you can, using `-n 4` from pytest-xdist to speed it up).
+ 3. Check that the existing tests still pass with the patch applied: run the full suite `cd {wt} && /venv/bin/python -m pytest -q -p no:cacheprovider --timeout=900 -n 6` (about 1-2 minutes; 11 tests in tests/Utilities/MeshIO_test.py and USD_test.py fail on the pristine tree already because optional packages are missing and must be ignored; everything else, 511 tests, must pass).
 Finish with the worktree restored to the pristine state (only the untracked seed_*.diff and demo_*.py files remain).
 
 Report back, for each change: the diff file path, the demo path, one paragraph on what it breaks and what it needs in order to manifest, which tests you ran and their outcome, and the demo's output with and without the patch. Keep the report short and factual.""")
